@@ -79,6 +79,12 @@ func ChildLoop(from, to int, results string, limit time.Duration, runOne func(i 
 			os.Exit(3)
 		}
 		write(ChildLine{Done: &idx, Findings: fs, Obs: obs})
+		if leave, _ := obs["leave_process"].(bool); leave {
+			// the case left goroutines behind that cannot be stopped (spinning or blocked for good):
+			// carry on in a fresh process
+			f.Close()
+			os.Exit(0)
+		}
 	}
 	f.Close()
 	os.Exit(0)
@@ -162,6 +168,17 @@ func RunIsolated(n, workers int, dir string, hardLimit time.Duration) []CaseResu
 				}
 				if werr == nil && finished[hi-1] {
 					break
+				}
+				if werr == nil {
+					// the child left on purpose after a finished case: resume behind the last finished one
+					next := from
+					for next < hi && finished[next] {
+						next++
+					}
+					if next > from {
+						from = next
+						continue
+					}
 				}
 				// the child died: blame the case it had started and not finished
 				bad := started
